@@ -29,6 +29,11 @@ type Case struct {
 	Bit      int    `json:"bit,omitempty"`
 	Byte     int    `json:"byte,omitempty"`       // 0: single bit flip; else XOR mask for a byte edit
 	LeafIsCA bool   `json:"leaf_is_ca,omitempty"` // the presented (client) certificate carries CA:TRUE (a sub-CA certificate used for client auth)
+	// Background: crl_fetch_mode fetch_background (the first load happens in a refresh run, not in the handshake)
+	Background bool `json:"background,omitempty"`
+	// FailFirst (intake first): before the offered document is served, one load attempt fails on
+	// garbage | http500 | truncated | the offered document itself (a second attempt with the same document)
+	FailFirst string `json:"fail_first,omitempty"`
 	// ExtraTrusted further (irrelevant) trusted signer certificates are configured.
 	ExtraTrusted int `json:"extra_trusted,omitempty"`
 	// Interleave: after the intake a client of ANOTHER CA the server accepts (the signer of the forgery for sibling /
@@ -58,6 +63,8 @@ func genCase(t *rapid.T) Case {
 		Forgery:  rapid.SampledFrom(forgeries).Draw(t, "forgery"),
 		LeafIsCA: rapid.IntRange(0, 3).Draw(t, "leafisca") == 0,
 	}
+	c.Background = rapid.IntRange(0, 2).Draw(t, "background") == 0
+	c.FailFirst = rapid.SampledFrom([]string{"", "", "garbage", "http500", "truncated", "same"}).Draw(t, "failfirst")
 	c.ExtraTrusted = rapid.IntRange(0, 6).Draw(t, "extratrusted")
 	c.Interleave = rapid.IntRange(0, 2).Draw(t, "interleave") > 0
 	c.Alg = rapid.SampledFrom(gen.CompatibleAlgs(gen.K(c.CAKey))).Draw(t, "alg")
@@ -269,7 +276,7 @@ func runCase(c Case, x *ev.Ctx) error {
 		extra := gen.Issue(gen.CertSpec{Key: "p256d", Subject: gen.CN(fmt.Sprintf("%s other signer %d", name, i)), SerialHex: fmt.Sprintf("40%02x", i), KeyUsage: "crlonly", NoEKU: true, ForceSKI: true}, unrelated)
 		trustedList = append(trustedList, extra.Cert)
 	}
-	ch, err := world.NewChecker(world.CRLOpts{WorkDir: world.NewDir("c04"), Disk: c.Disk, Strict: true, Sig: "verify", Trusted: trustedList})
+	ch, err := world.NewChecker(world.CRLOpts{WorkDir: world.NewDir("c04"), Disk: c.Disk, Strict: true, Sig: "verify", Trusted: trustedList, Background: c.Background})
 	if err != nil {
 		return fmt.Errorf("setup: %v", err)
 	}
@@ -277,7 +284,31 @@ func runCase(c Case, x *ev.Ctx) error {
 
 	inForce := false
 	if c.Intake == "first" {
+		if c.FailFirst != "" {
+			// a first attempt that cannot succeed; the entry exists afterwards and is not loaded
+			switch c.FailFirst {
+			case "garbage":
+				o.Serve("/ca.crl", []byte("<html>error</html>"))
+			case "http500":
+				o.Status("/ca.crl", 500, "down")
+			case "truncated":
+				e := encode(offered)
+				o.Serve("/ca.crl", e[:len(e)/2])
+			case "same":
+				o.Serve("/ca.crl", encode(offered))
+			}
+			v0 := world.Ask(ch, unlisted)
+			ch.VerifForceUpdate()
+			if c.FailFirst != "same" && v0.Kind != "error" {
+				return fmt.Errorf("setup: strict handshake while the location serves %s answered %v", c.FailFirst, v0)
+			}
+			x.Classf("first-attempt-fails=%s", c.FailFirst)
+		}
 		o.Serve("/ca.crl", encode(offered))
+		if c.Background {
+			world.Ask(ch, unlisted)
+			ch.VerifForceUpdate() // the refresh run that performs (or retries) the background load
+		}
 		v := world.Ask(ch, unlisted)
 		switch v.Kind {
 		case "ok":
@@ -292,6 +323,10 @@ func runCase(c Case, x *ev.Ctx) error {
 			// the authentic base cannot exist for a CA that may not sign CRLs
 			x.Class("refresh-skipped-no-authentic-base")
 			return nil
+		}
+		if c.Background {
+			world.Ask(ch, listedA) // announces the location
+			ch.VerifForceUpdate()
 		}
 		if v := world.Ask(ch, listedA); v.Kind != "revoked" {
 			x.Class("blocked-base-rejected")
@@ -322,6 +357,10 @@ func runCase(c Case, x *ev.Ctx) error {
 		ol := gen.Issue(gen.CertSpec{Key: "p256d", Subject: gen.CN(name + " other party client"), SerialHex: "0d", CDP: []string{o.URL("/other.crl")}, ForceSKI: true}, otherCA)
 		os := gen.CRLSpec{Version: 1, SigAlg: algFor(otherCA.Key), IssuerDER: otherCA.Cert.RawSubject, ThisUpdate: 1700000000, NextUpdate: 1900000000, Entries: []gen.Entry{{SerialHex: "77", Date: 1690000000}}}
 		o.Serve("/other.crl", os.MustBuild(otherCA.Key))
+		if c.Background {
+			world.Ask(ch, [][]*x509.Certificate{{ol.Cert, otherCA.Cert}}) // announces the location; the refresh run below loads it
+			ch.VerifForceUpdate()
+		}
 		if v := world.Ask(ch, [][]*x509.Certificate{{ol.Cert, otherCA.Cert}}); v.Kind != "ok" {
 			return fmt.Errorf("setup: client of the other CA answered %v", v)
 		}
